@@ -15,7 +15,7 @@ import (
 	"time"
 )
 
-const c02Rule = "byte strings from three streams: (a) structure-aware mutations of valid encodings of generated profiles (19 named strategies: length-prefix edits, id 0 / duplicate ids, dangling references, out-of-table string indices, function removed behind a line, duplicated fields, concatenations, value-count edits, wire-type edits, string-table edits, over-long varints, bit flips, truncations, …), (b) random wire-format field soups, (c) legacy inputs: mutated repository test inputs (text: line/number/hex edits; binary CPU: word-level edits of nstk/count/header/end marker) and generated legacy documents of every flavour; each also wrapped in valid and corrupt gzip. Non-trivial = reaches a mechanism the property anchors: the input is accepted; or the protobuf decoder got far enough to reject it at a bounds/type/string-index/concatenation check; or it parsed and the validity gate rejected it; or a legacy parser recognised the format (accepted or failed inside it). Distinct by input bytes."
+const c02Rule = "byte strings from three streams: (a) structure-aware mutations of valid encodings of generated profiles (19 named strategies: length-prefix edits, id 0 / duplicate ids, dangling references, out-of-table string indices, function removed behind a line, duplicated fields, concatenations, value-count edits, wire-type edits, string-table edits, over-long varints, bit flips, truncations, …), (b) random wire-format field soups, (c) legacy inputs: mutated repository test inputs (text: value-level edits of the numeric columns of records and headers — one column 0 / 1 / negative / huge / overflowing while its neighbours stay ordinary, all-but-one zero, all zero — plus line/number/hex edits; binary CPU: word-level edits of nstk/count/header/end marker) and legacy documents of every flavour (heap, heap_v2, heapz_v2, growth, fragmentation, contentionz, mutex, threadz, count, java heapz, java contentionz, binary CPU) printed with every numeric column drawn from the same per-record value patterns; each also wrapped in valid and corrupt gzip. Non-trivial = reaches a mechanism the property anchors: the input is accepted; or the protobuf decoder got far enough to reject it at a bounds/type/string-index/concatenation check; or it parsed and the validity gate rejected it; or a legacy parser recognised the format (accepted or failed inside it). Distinct by input bytes."
 
 // The generated run and every replay execute in a CHILD process with a capped address space:
 // an unrecoverable runtime error of the code under test (stack overflow, out of memory,
@@ -163,6 +163,10 @@ func c02Supervise(c *Ctx) {
 			continue
 		}
 		kind := c02FatalKind(tail2)
+		if c.Res.sigSeen["violation"+"C02/fatal/"+kind] { // already reported (e.g. by a corpus case)
+			os.Remove(inflight)
+			return
+		}
 		small := c02Shrink(raw, 40, func(cand []byte) bool {
 			d, t := diesOn(cand, doc.Case.Stream)
 			return d && c02FatalKind(t) == kind
@@ -226,6 +230,10 @@ func runC02(c *Ctx) {
 		os.Remove(filepath.Join(c.Dir, "inflight.json"))
 		return
 	}
+	scale := c.Scale
+	if scale > 1 { // thorough: 40x the quick counts (≈ 200 k inputs, ≈ 10–15 min)
+		scale *= 2
+	}
 	r := NewRng(c.Seed)
 	seeds := c02LoadSeeds()
 	if len(seeds) == 0 {
@@ -253,6 +261,9 @@ func runC02(c *Ctx) {
 			c.Res.Notes = append(c.Res.Notes, "run stopped after a timeout (the stuck goroutine cannot be killed)")
 		}
 		c.Res.Hit("stream:" + stream)
+		for _, rs := range o.reports {
+			c.Res.Hit("report:" + rs)
+		}
 		nt := classify(o)
 		if o.accepted && !seenAcc[o.canon] {
 			seenAcc[o.canon] = true
@@ -273,7 +284,7 @@ func runC02(c *Ctx) {
 	}
 
 	// (a) structure-aware mutations of valid encodings
-	na := 600 * c.Scale
+	na := 600 * scale
 	var prev []byte
 	for i := 0; i < na && !aborted; i++ {
 		st := c01Strategies[i%len(c01Strategies)]
@@ -299,27 +310,51 @@ func runC02(c *Ctx) {
 		prev = valid
 	}
 	// (b) random field soups
-	nb := 1000 * c.Scale
+	nb := 1000 * scale
 	for i := 0; i < nb && !aborted; i++ {
 		budget := 40 + r.Intn(200)
 		maybeGz(c02Soup(r, c02ProfSchema, 0, &budget), "b:soup")
 	}
 	// (c) legacy
-	nc := 1000 * c.Scale
+	textMut := func(doc []byte) ([]byte, string) {
+		switch k := r.Intn(100); {
+		case k < 50: // value-level: numeric columns of records and headers
+			return c02MutateColumns(r, doc), "columns"
+		case k < 65: // both
+			return c02MutateText(r, c02MutateColumns(r, doc)), "columns+text"
+		default:
+			return c02MutateText(r, doc), "text"
+		}
+	}
+	nc := 1500 * scale
 	for i := 0; i < nc && !aborted; i++ {
 		switch {
-		case len(seeds) > 0 && i%3 == 0:
+		case len(seeds) > 0 && i%5 == 0:
 			s := seeds[r.Intn(len(seeds))]
-			if i < 3*len(seeds) { // every seed unmodified once
-				s = seeds[(i/3)%len(seeds)]
+			if i < 5*len(seeds) { // every seed unmodified once
+				s = seeds[(i/5)%len(seeds)]
 				maybeGz(s.data, "c:seed")
 			}
 			if s.binary {
 				maybeGz(c02MutateBinary(r, s.data), "c:seed-binary-mutated")
 			} else {
-				maybeGz(c02MutateText(r, s.data), "c:seed-text-mutated")
+				m, how := textMut(s.data)
+				c.Res.Hit("c-text-mutation:" + how)
+				maybeGz(m, "c:seed-text-mutated")
 			}
-		case i%3 == 1:
+		case len(seeds) > 0 && i%5 == 1: // text seeds only: value-level edits
+			var texts []c02Seed
+			for _, s := range seeds {
+				if !s.binary {
+					texts = append(texts, s)
+				}
+			}
+			if len(texts) > 0 {
+				s := texts[r.Intn(len(texts))]
+				c.Res.Hit("c-text-mutation:columns")
+				maybeGz(c02MutateColumns(r, s.data), "c:seed-text-columns")
+			}
+		case i%5 == 2:
 			doc := c02GenBinaryCPU(r)
 			if r.Chance(35) {
 				maybeGz(doc, "c:gen-binary")
@@ -329,10 +364,12 @@ func runC02(c *Ctx) {
 		default:
 			kind, doc := c02GenTextLegacy(r)
 			c.Res.Hit("c-gen-text:" + kind)
-			if r.Chance(35) {
+			if r.Chance(60) { // the printers already draw every column from the value patterns
 				maybeGz(doc, "c:gen-text")
 			} else {
-				maybeGz(c02MutateText(r, doc), "c:gen-text-mutated")
+				m, how := textMut(doc)
+				c.Res.Hit("c-text-mutation:" + how)
+				maybeGz(m, "c:gen-text-mutated")
 			}
 		}
 	}
